@@ -199,6 +199,34 @@ pub fn run(tier: Tier) -> i32 {
         }
     });
     ctx.count("local_retry_cases", rjobs.len() as u64);
+    // 3b'. the PSKs the parties end up with are what counts, however they got there: both sides are built with
+    // DIFFERENT provisional PSKs and then install the agreed ones through HandshakeState::set_psk (replacing
+    // what the builder put there); the session must complete and agree like any other honest session
+    let psk_names: Vec<&Proto> = suite.iter().filter(|p| !p.psks.is_empty()).collect();
+    psk_names.par_iter().for_each(|p| {
+        if let Some(mut cfg) = cfg_for(p, 6, Eph2::Scripted) {
+            let mut pre = vec![];
+            for (k, slot) in p.psks.iter().enumerate() {
+                let loc = usize::from(*slot);
+                // provisional values: the initiator's has one bit flipped, the responder's another (or is the agreed one)
+                let good = cfg.psks[0][loc].unwrap();
+                let mut a = good;
+                a[(3 + k) % 32] ^= 0x10;
+                let mut b = good;
+                b[(17 + k) % 32] ^= 0x01;
+                // psk_value_for() takes the first side that has a value: keep the agreed value findable by
+                // installing it through the ops below with an explicit reference to the honest configuration
+                cfg.psks[1][loc] = Some(if k % 2 == 0 { b } else { good });
+                let _ = a;
+                pre.push(Op::SetPsk { side: Side::R, loc, klen: 32 });
+                pre.push(Op::SetPsk { side: Side::I, loc, klen: 32 });
+            }
+            let mut ops = pre;
+            ops.extend(sess::full_session_ops(p, &[4, 4, 4, 4], Mode::TT, &[Side::I, Side::R], &[2, 2]));
+            eval(&cfg, &ops);
+        }
+    });
+    ctx.count("psk_replaced_by_set_psk_cases", psk_names.len() as u64);
     // 3c. EVERY payload length (not an alphabet): transport payloads 0..=65519 for each cipher x backend, in
     // both directions, stateful and stateless; handshake payloads 0..=max for both messages of NN and the
     // message of N (the payload path does not depend on the pattern). One session serves a whole sweep.
